@@ -35,7 +35,7 @@ func init() {
 		MinEvals:        floor(400000, 7000000),
 		MinDistinct:     floor(100000, 1000000),
 		RequiredCells: func(string) []string {
-			return []string{"purity/like/history", "purity/like/concurrent", "pat*/str*", "pat\\/str\\", "pat*/str\\", "pat\\/str*", "lone-backslash/like", "lone-backslash/fromipld", "nonstring/int", "nonstring/bytes", "nonstring/list", "nonstring/map", "nonstring/null", "nonstring/bool", "nonstring/float", "random-long", "multibyte-exhaustive", "special-chars-exhaustive", "linefeed-dot-exhaustive", "long-subjects", "long-subjects/over-4KiB"}
+			return []string{"purity/like/history", "purity/like/concurrent", "pat*/str*", "pat\\/str\\", "pat*/str\\", "pat\\/str*", "lone-backslash/like", "lone-backslash/fromipld", "nonstring/int", "nonstring/bytes", "nonstring/list", "nonstring/map", "nonstring/null", "nonstring/bool", "nonstring/float", "random-long", "multibyte-exhaustive", "special-chars-exhaustive", "linefeed-dot-exhaustive", "long-subjects", "long-subjects/over-4KiB", "self-similar-subjects"}
 		},
 		Replay: replayC13,
 	})
@@ -284,6 +284,39 @@ func runC13(w *mon.W) {
 		if len(subj) > 4096 {
 			w.Cover("long-subjects/over-4KiB")
 		}
+		c13Check(w, pat.String(), pol, subj)
+	}
+
+	// much matching work with a positive answer: a self-similar subject (one unit repeated hundreds
+	// or thousands of times, then a tail) against '*' + a long run of the unit + the tail, with one
+	// to three such groups - the only match lies at the very end of the search, and every earlier
+	// position looks promising for as long as the literal run. A matcher that gives up (a step
+	// budget, a recursion limit, a timeout) answers 'no match' for a subject of the language.
+	for i := 0; i < w.Share(w.Pick(400, 3000)); i++ {
+		r := w.Rng
+		unit := gen.Pick(r, []string{"a", "ab", "aab", "é", "abab", "*", "\\"})
+		groups := 1 + r.IntN(3)
+		var pat, str strings.Builder
+		for g := 0; g < groups; g++ {
+			n := gen.Pick(r, []int{100, 400, 1500, 5000})
+			m := 20 + r.IntN(gen.Pick(r, []int{20, 80, 200}))
+			if m > n {
+				m = n
+			}
+			tail := gen.Pick(r, []string{"c", "", "b", "é", "tail"})
+			str.WriteString(strings.Repeat(unit, n) + tail)
+			pat.WriteString("*" + gen.EscapeGlob(strings.Repeat(unit, m)+tail))
+		}
+		subj := str.String()
+		if r.IntN(4) == 0 {
+			subj += "q" // ... and now and then not in the language after the same work
+		}
+		pol, err := policy.Construct(policy.Like(".", pat.String()))
+		if err != nil {
+			w.Violate("like/valid-pattern-rejected", fmt.Sprintf("policy.Like rejected valid pattern %q: %v", mon.Trunc(pat.String(), 200), err), map[string]any{"pattern": pat.String()})
+			continue
+		}
+		w.Cover("self-similar-subjects")
 		c13Check(w, pat.String(), pol, subj)
 	}
 
